@@ -77,7 +77,7 @@ func drawNumIn(t *rapid.T, fam int) spec.Num {
 	case 0: // small whole numbers through every route
 		return routeFor(t, strconv.Itoa(rapid.IntRange(-2, 3).Draw(t, "small")), true)
 	case 1: // whole numbers equal to 10 significant digits
-		if rapid.Bool().Draw(t, "longrun") {
+		if rapid.IntRange(0, 3).Draw(t, "longrun") > 0 {
 			// 1234567890100 .. 1234567890149: fifty distinct whole numbers, exact in float64, one 10-digit prefix
 			return routeFor(t, strconv.Itoa(1234567890100+rapid.IntRange(0, 49).Draw(t, "k")), true)
 		}
